@@ -491,6 +491,8 @@ pub fn via_constructors(format: &str, input: &[u8]) -> Vec<(&'static str, Vec<St
         };
         run("from_read", ascii::Parser::<u32>::from_read(input, ascii::Config::default()));
         run("from_buf_reader", ascii::Parser::<u32>::from_buf_reader(prefilled(6), ascii::Config::default()));
+        run("from_buf_reader(capacity 0)", ascii::Parser::<u32>::from_buf_reader(prefilled(0), ascii::Config::default()));
+        run("from_buf_reader(capacity 1)", ascii::Parser::<u32>::from_buf_reader(prefilled(1), ascii::Config::default()));
         run("from_boxed_dyn_read", ascii::Parser::<u32>::from_boxed_dyn_read(Box::new(input), ascii::Config::default()));
     } else {
         let mut run = |name: &'static str, p: Result<binary::Parser<u32>, ParseError>| {
@@ -502,6 +504,8 @@ pub fn via_constructors(format: &str, input: &[u8]) -> Vec<(&'static str, Vec<St
         };
         run("from_read", binary::Parser::<u32>::from_read(input, binary::Config::default()));
         run("from_buf_reader", binary::Parser::<u32>::from_buf_reader(prefilled(6), binary::Config::default()));
+        run("from_buf_reader(capacity 0)", binary::Parser::<u32>::from_buf_reader(prefilled(0), binary::Config::default()));
+        run("from_buf_reader(capacity 1)", binary::Parser::<u32>::from_buf_reader(prefilled(1), binary::Config::default()));
         run("from_boxed_dyn_read", binary::Parser::<u32>::from_boxed_dyn_read(Box::new(input), binary::Config::default()));
     }
     out
